@@ -2871,6 +2871,27 @@ Octagonal_Shape<T>
     }
   }
 
+  // The bounds computed above take into account all the paths that
+  // do not go through `v' and `cv': combine them so as to also consider
+  // the paths reaching `v' through `cv' and the other way round.
+  // (By coherence, this also improves the rows of `v' and `cv'.)
+  for (row_iterator i_iter = m_begin; i_iter != m_end; ++i_iter) {
+    const dimension_type i = i_iter.index();
+    const dimension_type ci = coherent_index(i);
+    const dimension_type rs_i = i_iter.row_size();
+    row_reference x_i = *i_iter;
+    N& x_i_v = (v < rs_i) ? x_i[v] : x_cv[ci];
+    N& x_i_cv = (cv < rs_i) ? x_i[cv] : x_v[ci];
+    if (!is_plus_infinity(x_i_cv) && !is_plus_infinity(x_cv[v])) {
+      add_assign_r(sum, x_i_cv, x_cv[v], ROUND_UP);
+      min_assign(x_i_v, sum);
+    }
+    if (!is_plus_infinity(x_i_v) && !is_plus_infinity(x_v[cv])) {
+      add_assign_r(sum, x_i_v, x_v[cv], ROUND_UP);
+      min_assign(x_i_cv, sum);
+    }
+  }
+
   // Step 2: improve the other bounds by using the precise bounds
   // for the constraints on `var'.
   for (row_iterator i_iter = m_begin; i_iter != m_end; ++i_iter) {
